@@ -14,7 +14,7 @@ from vmon.libutil import monitored, xtce_element
 
 LEVEL = "exploration"
 SHARDS = {"quick": 16, "thorough": 16}
-MUST = ["end_to_end.documents", "history.selfref_first", "history.evaluated_twice", "form.comparison", "form.condition-value", "form.condition-param", "form.boolexpr", "form.list", "form.lookup",
+MUST = ["end_to_end.documents", "end_to_end.sibling_documents", "end_to_end.entity_spelling", "context_history.decodes", "history.selfref_first", "history.evaluated_twice", "form.comparison", "form.condition-value", "form.condition-param", "form.boolexpr", "form.list", "form.lookup",
         "route.ctor", "route.xml", "truth.true", "truth.false", "operand.falsy", "operand.int-vs-float", "spellings.all"]
 RULE = ("case = (criteria IR, assignment of (value, raw_value) to the referenced parameters, construction route); the "
         "library's evaluate() result must be the bool the model computes. Enumerated completely: all 16 operator "
@@ -183,7 +183,8 @@ def features(obj, env, route):
 def operand_cases():
     """(name, kind, value, raw) for single-operand tests; value = derived, raw = raw_value"""
     out = []
-    for v in (0, 1, -1, 2, 7, 255):
+    for v in (0, 1, -1, 2, 7, 255, 2 ** 53 + 1, 2 ** 64 - 1, -(2 ** 53) - 1):
+        # integers a double cannot hold stay exact: 9007199254740993 is not 9007199254740992
         out.append(("int", v, v))
     for v, r in ((0.0, 0), (-0.0, 0), (0.5, 1), (1.0, 2), (-2.5, -5), (1e10, 3), (2.0, 4),
                  (float("nan"), 5), (float("inf"), 6), (float("-inf"), -7), (3.0, float("nan"))):
@@ -244,7 +245,7 @@ def run(ctx):
                         c = ir.Comparison("SELF", str(int(raw)) if isinstance(raw, int) else repr(raw), op, False)
                         judge(ctx, "comparison", c, B.make(c, "ctor"), packets.CCSDSPacket(), {}, "ctor",
                               (ir.OPS[op], "self", kind_of(raw), "falsy" if falsy(raw) else "truthy"), current=raw)
-    ctx.exhaustive_space("16 operator spellings x 2 selectors x 31 operand cases x literals x 2 routes", 1)
+    ctx.exhaustive_space("16 operator spellings x 2 selectors x 34 operand cases x literals x 2 routes", 1)
 
     # ---- 2. Condition parameter-vs-parameter incl. int-vs-float in both orders ------------------------------------
     pool = [("int", 0, 0), ("int", 3, 3), ("int", -1, -1), ("float", 0.0, 0), ("float", 3.0, 6), ("float", 2.5, 5),
@@ -315,6 +316,9 @@ def run(ctx):
                 judge(ctx, "list", lst, libs[route], pkt, env, route, ("len", n))
     lookups(ctx, comps, assigns, rng, absent)
     end_to_end(ctx)
+    siblings_sharing_a_leading_equality(ctx)
+    if ctx.mine(2):
+        context_history(ctx)
 
     # ---- 5. seeded random larger trees ------------------------------------------------------------------------------
     for i in range(ctx.size(3000, 2_000_000) // ctx.nshards):
@@ -339,9 +343,88 @@ def end_to_end(ctx):
                 if not ctx.mine(n):
                     continue
                 doc = c05.tree_doc((-1, 0), (c0, c1), (abstract0, False), True, empty=empty)
-                before = dict(ctx.violations)
-                c05.exercise(ctx, doc, f"e2e/{c0}/{c1}/{int(abstract0)}/{'grouping-layer' if empty else 'plain'}")
+                # documents whose criteria carry <Value> text are also spelled with internal DTD entities (every other one)
+                use_ent = isinstance(c05.POOL[c0], ir.BoolExpr) and n % 2 == 0
+                if use_ent:
+                    ctx.count("end_to_end.entity_spelling")
+                c05.exercise(ctx, doc, f"e2e/{c0}/{c1}/{int(abstract0)}/{'grouping-layer' if empty else 'plain'}{'/entities' if use_ent else ''}",
+                             xml_filter=entityfy if use_ent else None)
                 ctx.count("end_to_end.documents")
+
+
+def entityfy(xml: bytes) -> bytes:
+    """the same document spelled with an internal DTD entity: the last character of every <Value> text and of one attribute value is
+    written as an entity reference (a purely lexical change: an XML parser hands the same text to the application)"""
+    import re
+    n = [0]
+
+    def val(m):
+        n[0] += 1
+        return m.group(1) + m.group(2)[:-1] + b"&vmonlast" + str(n[0]).encode() + b";" + m.group(3)
+    ents = []
+    out = re.sub(rb"(<[A-Za-z0-9_.:-]*Value>)([^<&]+)(</)", val, xml)
+    texts = re.findall(rb"<[A-Za-z0-9_.:-]*Value>([^<&]+)</", xml)
+    for i_, t_ in enumerate(texts, 1):
+        ents.append(b'<!ENTITY vmonlast' + str(i_).encode() + b' "' + t_[-1:] + b'">')
+    if not ents:
+        return xml
+    root_name = re.search(rb"<([A-Za-z0-9_.:-]*SpaceSystem)", out).group(1)
+    head, sep, rest = out.partition(b"?>")
+    return head + sep + b"\n<!DOCTYPE " + root_name + b" [" + b"".join(ents) + b"]>" + rest
+
+
+def context_history(ctx):
+    """context calibrators with OVERLAPPING criteria on one encoding object used for a sequence of packets: every value is
+    calibrated by the FIRST listed context whose criteria hold, whatever was evaluated before"""
+    from vmon import synth
+    from space_packet_parser import packets as P
+    cc = (ir.ContextCal((ir.Comparison("MODE", "5", "<=", False),), ir.Poly(((10.0, 1),))),
+          ir.ContextCal((ir.Comparison("MODE", "3", ">=", False),), ir.Poly(((100.0, 1),))),
+          ir.ContextCal((ir.Comparison("MODE", "8", "==", False), ir.Comparison("MODE", "3", ">=", False)), ir.Poly(((1000.0, 1),))))
+    t = ir.PType("T", "float", ir.IntEnc(8, "unsigned", False, ir.Poly(((0.5, 1),)), cc))
+    for route in ("ctor", "xml"):
+        lib = build.ptype(t) if route == "ctor" else None
+        if lib is None:
+            from space_packet_parser.xtce import parameter_types as T_
+            lib = getattr(T_, ir.KIND_TAG[t.kind]).from_xml(xtce_element(render.render_fragment(render.type_el(t, render.Opts()))))
+        for seq in ([9, 4, 1, 4, 9, 3, 5, 6, 2, 8, 4], [4, 9, 4], [8, 5, 8, 2, 9, 9, 4], [6, 5], [2, 6, 2, 4]):
+            for mode in seq:
+                pkt, env, allbits = synth.packet_of({"MODE": ("int", mode, mode)}, "00000010", 3, None, tail_bits=5)
+                exp, _pos = ref.decode_param(t, allbits, 3, env)
+                step = monitored(lib.parse_value, pkt)
+                ctx.count("evaluations")
+                ctx.count("context_history.decodes")
+                got = step.value
+                if step.exc is not None or float(got) != float(exp.value):
+                    ctx.violation(f"context-history/{route}/first-match-lost", f"MODE sequence {seq}: at MODE={mode} the value is {got!r} / {step.exc!r}, "
+                                  f"the first listed context whose criteria hold gives {exp.value!r}", {"sequence": seq, "mode": mode, "route": route})
+                    break
+    ctx.sig("context-history", "overlapping")
+
+
+def siblings_sharing_a_leading_equality(ctx):
+    """sibling containers whose comparison lists start with the SAME equality and differ in a later comparison (same APID, different
+    sub-type): each packet goes to the sibling all of whose comparisons hold"""
+    import dataclasses
+    from vmon.props import c05
+    n = 0
+    for lit0, lit1 in (("1", "1"), ("1", "01"), ("2", "2")):
+        for later in ((("S2", "2", "<"), ("S2", "2", ">=")), (("S2", "0", "=="), ("S2", "0", "!=")), (("S2", "1", "<="), ("S2", "3", "=="))):
+            n += 1
+            if not ctx.mine(n):
+                continue
+            doc = c05.tree_doc((-1, -1), (0, 0), (False, False), True)
+            conts = []
+            for c in doc.containers:
+                if c.name in ("K0", "K1"):
+                    k = int(c.name[1])
+                    ref_, val_, op_ = later[k]
+                    crit = (ir.Comparison("S1", (lit0, lit1)[k], "==", False), ir.Comparison(ref_, val_, op_, False))
+                    c = dataclasses.replace(c, criteria=crit)
+                conts.append(c)
+            doc = ir.Doc(doc.types, doc.params, tuple(conts), doc.root, doc.system_name, doc.date)
+            c05.exercise(ctx, doc, f"siblings/{lit0}/{lit1}/{later}")
+            ctx.count("end_to_end.sibling_documents")
 
 
 def lookups(ctx, comps, assigns, rng, absent):
